@@ -17,7 +17,7 @@ func init() {
 		ID:          "C02",
 		Explanation: "Decided: (sources) every suspension source recognised by the blocking analysis — send, receive, range over a channel, select without default, call through a function variable / interface method / computed callee, bodiless function — reaches markBlocking (or the callee registration that the fixpoint later resolves) on the path selected by its guard, and deferred calls are recorded wherever a call is; (fixpoint) PropagateAnalysis iterates function blocking to a fixpoint over all packages and then propagates return/continue blocking for every function, IsBlocking is conservative; (protocol) translateCall's blocking arm emits the complete resume protocol and blocking functions save/restore through $restore and the $f frame; (frame) every JS local is appended to localVars and both the restore destructuring and the saved frame are built from localVars; (flatten) Blocking implies Flattened for the whole visitor stack and the translator consults Flattened/Blocking in every construct that has a resumable form. NOT decided: that a flattened function computes what its direct form computes; escape boxing; ancestor-closure of the visitor stack bookkeeping for every AST.",
 		Assumptions: []string{"go/ast.Walk calls Visit(nil) after the children of a node whose visitor was non-nil"},
-		Rules:       []RuleFunc{ruleC02Sources, ruleC02Fixpoint, ruleC02Protocol, ruleC02Frame, ruleC02Flatten, ruleC02Escape, ruleC02ArgOrder, ruleC02LabelledBranch, ruleLabelNamespace, ruleC02EscapingScope, ruleBlockingOnlyGrows, ruleC02DeferredSuspendFirst},
+		Rules:       []RuleFunc{ruleC02Sources, ruleC02Fixpoint, ruleC02Protocol, ruleC02Frame, ruleC02Flatten, ruleC02Escape, ruleC02ArgOrder, ruleC02LabelledBranch, ruleLabelNamespace, ruleC02EscapingScope, ruleBlockingOnlyGrows, ruleC02DeferredSuspendFirst, ruleDeferredAfterRecovery, ruleC02LazyDispatch},
 	})
 }
 
